@@ -61,5 +61,31 @@ def appendBatchAxes (s : Shape) (ndim : Nat) : Shape :=
   | none => []      -- `np.asarray(shift)` of a scalar: `reshape(() + (1,)*n + ())` is rejected for n > 0; not used (shifts are ≥ 1-d there)
   | some l => s.dropLast ++ List.replicate (ndim - (s.length - 1)) 1 ++ [l]
 
+/-- numpy `expand_dims(arr, dims)` on shapes: the result has `s.length + dims.length` axes, size 1 at the positions listed
+    (assumed duplicate-free) and the axes of `s` in order elsewhere; `none` = AxisError (a position beyond the result) -/
+def placeDims : Nat → Nat → List Nat → Shape → Shape
+  | _, 0, _, _ => []
+  | i, n + 1, nd, s =>
+    if nd.contains i then 1 :: placeDims (i + 1) n nd s
+    else match s with
+      | [] => []
+      | d :: r => d :: placeDims (i + 1) n nd r
+
+def expandDims (s : Shape) (dims : List Nat) : Option Shape :=
+  let total := s.length + dims.length
+  if dims.any (fun p => total ≤ p) then none else some (placeDims 0 total dims s)
+
+/-- `common.set_axes(ndim, arr, axes)`: `ndim` = number of trailing coefficient axes, `axes` an int (first batch axis goes
+    there, the others follow) or a tuple of ints (one per batch axis).  `none` = an exception (no batch axis at all:
+    `max(())`; or a listed position beyond the result) -/
+def setAxesFull (ndim : Nat) (s : Shape) (axes : Nat ⊕ List Nat) : Option Shape :=
+  let nb := s.length - ndim
+  let ax : List Nat := match axes with
+    | .inl a => (List.range nb).map (· + a)
+    | .inr l => l
+  match ax.max? with
+  | none => none
+  | some m => expandDims s ((List.range m).filter (fun i => !ax.contains i))
+
 end Shp
 end EpgVerif
